@@ -302,3 +302,52 @@ func SnapshotRetention(base *Env) *Env {
 	recheck()
 	return &e
 }
+
+// TxnFailureScenario: failing calls inside a session transaction must leave the transaction's
+// working catalog as it was (they do not abort the transaction), and what is committed
+// afterwards is exactly the effect of the calls that succeeded.
+func TxnFailureScenario(e *Env) {
+	plainCtx := e.Ctx
+	ns := "d.c1"
+	e.Do(e.CreateIndex(ns, IndexSpec{Key: d("a", int32(1)), Unique: true, Expire: -1}))
+	e.Do(e.InsertMany(ns, []bson.D{d("_id", int32(1), "a", int32(1), "b", int32(1)), d("_id", int32(2), "a", int32(2), "b", "s"), d("_id", int32(3), "a", int32(3), "b", int32(3))}, true))
+	e.Client.UseSession(plainCtx, func(sc lungo.ISessionContext) error {
+		sess := sc.(lungo.SessionContext).Session
+		if err := sc.StartTransaction(); err != nil {
+			return err
+		}
+		working := func() *lungo.Catalog {
+			if t := sess.Transaction(); t != nil {
+				return t.Catalog()
+			}
+			return nil
+		}
+		calls := []Call{
+			e.InsertOne(ns, d("_id", int32(4), "a", int32(4))),
+			e.FindOneAndDelete(ns, d("_id", int32(1)), nil, d("a", "bad")),
+			e.FindOneAndUpdate(ns, d("_id", int32(1)), d("$set", d("b", int32(9))), nil, d("a", int32(1), "b", int32(0)), false, true, nil),
+			e.FindOneAndReplace(ns, d("_id", int32(3)), d("a", int32(30)), nil, d("a", d("$slice", "x")), false, false),
+			e.Update(ns, true, d(), d("$inc", d("b", int32(1))), false, nil),                  // fails at the second document
+			e.Update(ns, true, d(), d("$inc", d("a", int32(1))), false, nil),                  // shifts all keys: allowed
+			e.Update(ns, false, d("_id", int32(1)), d("$set", d("a", int32(3))), false, nil),   // duplicate
+			e.InsertMany(ns, []bson.D{d("_id", int32(5), "a", int32(50)), d("_id", int32(5), "a", int32(51)), d("_id", int32(6), "a", int32(52))}, false),
+			e.BulkWrite(ns, []Model{{Kind: "insert", Doc: d("_id", int32(7), "a", int32(70))}, {Kind: "update", Q: d(), Doc: d("$set", d("a", int32(70))), Many: true},
+				{Kind: "delete", Q: d("_id", int32(2))}}, true),
+			e.ReplaceOne(ns, d("_id", int32(3)), d("_id", int32(9), "a", int32(1)), false),
+			e.Delete(ns, true, d("a", d("$foo", int32(1)))),
+			e.Find(ns, d(), d("_id", int32(1)), nil, 0, 0),
+		}
+		for _, c := range calls {
+			e.View, e.Ctx, e.Actor = working, sc, "session"
+			e.Do(c)
+			e.View, e.Ctx, e.Actor = nil, plainCtx, ""
+		}
+		wpre := e.dumpCat(working())
+		cpre := e.dumpCat(e.Engine.Catalog())
+		err := sc.CommitTransaction(sc)
+		e.Step++
+		e.Trace.Write(V{"fn": "txn", "hist": e.Hist, "step": e.Step, "what": "commit", "err": err != nil, "storefail": false, "cpre": cpre, "cpost": e.dumpCat(e.Engine.Catalog()), "wpre": wpre, "wpost": wpre})
+		return nil
+	})
+	e.Do(e.Find(ns, d(), d("_id", int32(1)), nil, 0, 0))
+}
